@@ -56,7 +56,7 @@ fn rerun(w: &Value) -> Option<Outcome> {
         "c07_returns" => Some(c07::run_returns(w["input"]["grammar"].as_str()?, w["input"]["input"].as_str()?)),
         "c07_recover" => Some(c07::run(w["input"]["grammar"].as_str()?, w["input"]["input"].as_str()?, w["input"]["cost"].as_u64()? as u8)),
         "c03_cells" => Some(c03r::run_seed(w["input"]["seed"].as_u64()?)),
-        "c06_repairs" => Some(c06::run(w["input"]["grammar"].as_str()?, w["input"]["input"].as_str()?)),
+        "c06_repairs" => { let costs: Vec<u8> = w["input"]["costs"].as_array().map(|a| a.iter().map(|x| x.as_u64().unwrap_or(1) as u8).collect()).unwrap_or_else(|| vec![1]); Some(c06::run_costs(w["input"]["grammar"].as_str()?, w["input"]["input"].as_str()?, &costs)) }
         "c04_graph" => Some(c04::run(w["input"]["grammar"].as_str()?)),
         "c12_header" => Some(c12::run_header(w["input"]["text"].as_str()?)),
         "c12_header_deep" => Some(c12::run_header_deep(w["input"]["nested"].as_u64()? as usize)),
